@@ -86,4 +86,135 @@ MUTANTS = [
             else:
                 lhh_count[row, col] = uint_maxval""", """            lhh_count[row, col] += value""")]),
     dict(name="hh-merge-keeps-equal-other", props=["C04"], edits=[(HH, "                if lhh_count[row, col] >= other_lhh_count[row, col]:", "                if lhh_count[row, col] > other_lhh_count[row, col] + uint32(1):")]),
+    # ---- C05
+    dict(name="c05-plain-update-linear", props=["C05", "C01"], edits=[(CM, """        count = cms[row, buckets[row]]
+        if count < new_count:
+            cms[row, buckets[row]] = new_count
+
+
+@njit(
+    types.void(
+        uint32[:, :],
+        uint64[:],
+        uint64[:],
+        uint64,
+        uint64,
+        uint32,
+        types.Bytes(types.uint8, 1, "C"),
+        uint64,""", """        count = cms[row, buckets[row]]
+        if value > uint_maxval - count:
+            cms[row, buckets[row]] = uint_maxval
+        else:
+            cms[row, buckets[row]] = count + value
+
+
+@njit(
+    types.void(
+        uint32[:, :],
+        uint64[:],
+        uint64[:],
+        uint64,
+        uint64,
+        uint32,
+        types.Bytes(types.uint8, 1, "C"),
+        uint64,""")]),
+    dict(name="c05-plain-update-log8", props=["C05"], edits=[(CM, """    # Now update only those counters that are below the new value
+    for row in range(depth):
+        count = cms[row, buckets[row]]
+        if count < new_count:
+            cms[row, buckets[row]] = new_count
+
+    return rand_ptr
+
+
+@njit(
+    uint64(
+        uint8[:, :],""", """    # Now update only those counters that are below the new value
+    delta = new_count - min_count
+    for row in range(depth):
+        count = cms[row, buckets[row]]
+        if count <= uint_maxval - delta:
+            cms[row, buckets[row]] = count + delta
+        else:
+            cms[row, buckets[row]] = uint_maxval
+
+    return rand_ptr
+
+
+@njit(
+    uint64(
+        uint8[:, :],""")]),
+    dict(name="c05-log16-n-added-only-when-advanced", props=["C05", "C08"], edits=[(CM, """    # Track total number of elements added to the sketch
+    n_added_records[0] += uint64(value)
+
+    # This gets min_count AND updates buckets
+    min_count = _query_log16(cms, buckets, width, depth, uint_maxval, key)
+
+    new_count, rand_ptr = _log_counter(
+        min_count, num_reserved, uint_maxval, base, rand_nums, rand_ptr, value
+    )
+    # Nothing to do
+    if new_count == min_count:
+        return rand_ptr
+""", """    # This gets min_count AND updates buckets
+    min_count = _query_log16(cms, buckets, width, depth, uint_maxval, key)
+
+    new_count, rand_ptr = _log_counter(
+        min_count, num_reserved, uint_maxval, base, rand_nums, rand_ptr, value
+    )
+    # Nothing to do
+    if new_count == min_count:
+        return rand_ptr
+
+    # Track total number of elements added to the sketch
+    n_added_records[0] += uint64(value)
+""")]),
+    dict(name="c06-deterministic-through-nr-plus-1", props=["C06"], edits=[(CM, "        if cprime < 0:\n            counter += one", "        if cprime < 2:\n            counter += one")]),
+    # ---- C06
+    dict(name="c06-prob-exponent-plus-1", props=["C06"], edits=[(CM, "            if rand < base ** (-cprime):", "            if rand < base ** (-(cprime + 1.0)):")]),
+    dict(name="c06-rand-no-refill", props=["C06"], edits=[(CM, "        rand_batch[:] = np.random.rand(2048)\n", "")]),
+    dict(name="c06-refill-half-range", props=["C06"], edits=[(CM, "        rand_batch[:] = np.random.rand(2048)\n", "        rand_batch[:] = np.random.rand(2048) * 0.5\n")]),
+    dict(name="c06-log8-initial-batch-fixed-seed", props=["C06"], edits=[(CM, """        rng = np.random.default_rng()
+        self.rng = np.random.default_rng(rng.integers(0, 2**63))
+        self.rand_ptr = 0
+        self.rand_nums = self.rng.random(2048)
+
+        if shared_memory:
+            cms_size = int(1 * width * depth)""", """        self.rng = np.random.default_rng(20220101)
+        self.rand_ptr = 0
+        self.rand_nums = self.rng.random(2048)
+
+        if shared_memory:
+            cms_size = int(1 * width * depth)""")]),
+    dict(name="c06-log8-add-truncates-counter-growth", props=["C06", "C05"], edits=[(CM, "    # Reminder that this is a uint16 value so cast to uint8\n    new_count = uint8(new_count)\n", "    # Reminder that this is a uint16 value so cast to uint8\n    new_count = uint8(min(new_count, min_count + uint16(64)))\n")]),
+    # ---- C09
+    dict(name="c09-log16-always-round-down", props=["C09"], edits=[(CM, """                delta = v - vlower
+                if delta / (vhigher - vlower) <= 0.5:
+                    cms[row, col] = clower
+                else:
+                    cms[row, col] = clower + uint16(1)""", """                cms[row, col] = clower""")]),
+    dict(name="c09-log8-merge-drops-n-records", props=["C09", "C08"], edits=[(CM, """                    cms[row, col] = clower + uint8(1)
+
+    # Merge the special counters
+    n_added_records[0] += other_n_added_records[0]
+    n_added_records[1] += other_n_added_records[1]""", """                    cms[row, col] = clower + uint8(1)
+
+    # Merge the special counters
+    n_added_records[0] += other_n_added_records[0]""")]),
+    dict(name="c09-log16-merge-drains-other", props=["C09"], edits=[(CM, """                if delta / (vhigher - vlower) <= 0.5:
+                    cms[row, col] = clower
+                else:
+                    cms[row, col] = clower + uint16(1)""", """                if delta / (vhigher - vlower) <= 0.5:
+                    cms[row, col] = clower
+                else:
+                    cms[row, col] = clower + uint16(1)
+                other_cms[row, col] = 0""")]),
+    dict(name="c09-log8-merge-takes-max-in-reserved", props=["C09", "C06"], edits=[(CM, """            if v <= num_reserved:
+                cms[row, col] = uint8(v)""", """            if v <= num_reserved:
+                cms[row, col] = max(cms[row, col], other_cms[row, col])""")]),
+    dict(name="c09-linear-merge-skips-last-column-odd-width", props=["C09", "C01"], edits=[(CM, """    for row in prange(depth):
+        for col in range(width):
+            if other_cms[row, col] > uint_maxval - cms[row, col]:""", """    for row in prange(depth):
+        for col in range(width - (width & 1) * (width > 1)):
+            if other_cms[row, col] > uint_maxval - cms[row, col]:""")]),
 ]
